@@ -30,6 +30,9 @@ CLAIMED["C06"] = ("exploration", "fully crossed enumeration of a tank family (sh
 CLAIMED["C07"] = ("exploration", "exhaustive crossing of (Pmin,Preq) x exponent x demand x override mode; dense pressure sweep of the compiled pdd residual (model seam) plus PDD simulations in every pressure regime (system seam)",
     "every parameter combination of the alphabets is built with create_hydraulic_model and its compiled pdd residual is swept over a 448-point pressure grid incl. points at both sides of all four branch edges; values, monotonicity, continuity and locality of overrides are judged against the documented curve",
     "values between grid points and parameters outside the alphabets are not covered; 1e-7 noise allowance (rounding of the smoothing cubics)")
+CLAIMED["C08"] = ("exploration", "crossed enumeration of leak site x area/Cd x activity window x demand model x pressure regime x add/remove history x step, every run on WNTRSimulator with 'ALL' reporting; orifice-law, window, balance and never-leaked differential oracles",
+    "every combination of the leak alphabets (junction and tank sites, simultaneous leaks, on/off-grid windows, negative pressure, add/remove/add histories) is simulated and every reported step is judged against Cd*A*sqrt(2gp), the activity window and the node balance",
+    "areas/coefficients outside the alphabet and leaks on isolated nodes are not covered")
 NOT_YET = "check not built yet in this session (work in progress, see DESIGN.md section 4)"
 
 
